@@ -876,20 +876,17 @@ class Part(object):
         i = np.searchsorted(times, t)
         changed = False
 
-        if i == 0 or quarters[i - 1] != quarter:
-            # add or replace
-            if i == len(times) or times[i] != t:
-                # add
-                times.insert(i, t)
-                quarters.insert(i, quarter)
-                changed = True
-            elif quarters[i] != quarter:
+        if i < len(times) and times[i] == t:
+            # another quarter duration is at t
+            if quarters[i] != quarter:
                 # replace
                 quarters[i] = quarter
                 changed = True
-            else:
-                # times[i] == t, quarters[i] == quarter
-                pass
+        elif i == 0 or quarters[i - 1] != quarter:
+            # add (unless redundant)
+            times.insert(i, t)
+            quarters.insert(i, quarter)
+            changed = True
 
         if not changed:
             return
